@@ -51,13 +51,13 @@ theorem runCheck_plugin_id {nm : NosecMap} {env : Env} {c : Check} (hp : IsPlugi
     ∀ e ∈ runCheck nm env c, ∀ i, eventId e = some i → i = c.id := by
   intro e he i hi
   unfold runCheck at he
-  cases hr : c.run env with
+  cases hr : c.run (env.forCheck c) with
   | error x => simp [hr] at he; subst he; cases hi
   | ok r =>
     cases r with
     | none => simp [hr] at he
     | some raw =>
-      have hid := hp env raw hr
+      have hid := hp (env.forCheck c) raw hr
       have hrid : (raw.resolve env.v).id = [] := by
         unfold PRaw.resolve; cases raw.loc <;> simp [hid]
       have hf : (fillId c (raw.resolve env.v)).id = c.id := by simp [fillId, hrid]
@@ -291,12 +291,12 @@ namespace Bandit
 /-- two checks related by "the second returns what the first returns if its ID is kept" -/
 theorem runCheck_related {nm : NosecMap} {env : Env} {c c' : Check} (keep : Str → Bool)
     (hname : c'.name = c.name) (hidc : c'.id = c.id)
-    (hrun : c'.run env = (c.run env).map (keepRaw keep))
-    (hids : ∀ raw, c.run env = .ok (some raw) → raw.id ≠ []) :
+    (hrun : c'.run (env.forCheck c') = (c.run (env.forCheck c)).map (keepRaw keep))
+    (hids : ∀ raw, c.run (env.forCheck c) = .ok (some raw) → raw.id ≠ []) :
     (runCheck nm env c').filter hasId = (runCheck nm env c).filter (keepEvent keep) := by
   unfold runCheck
   rw [hrun]
-  cases hr : c.run env with
+  cases hr : c.run (env.forCheck c) with
   | error x => simp [Except.map, hasId, keepEvent, eventId]
   | ok o =>
     cases o with
@@ -325,10 +325,10 @@ theorem runCheck_related {nm : NosecMap} {env : Env} {c c' : Check} (keep : Str 
 
 /-- a check none of whose results is kept contributes nothing after filtering -/
 theorem runCheck_unkept {nm : NosecMap} {env : Env} {c : Check} (keep : Str → Bool)
-    (hids : ∀ raw, c.run env = .ok (some raw) → raw.id ≠ [] ∧ keep raw.id = false) :
+    (hids : ∀ raw, c.run (env.forCheck c) = .ok (some raw) → raw.id ≠ [] ∧ keep raw.id = false) :
     (runCheck nm env c).filter (keepEvent keep) = [] := by
   unfold runCheck
-  cases hr : c.run env with
+  cases hr : c.run (env.forCheck c) with
   | error x => simp [keepEvent, eventId]
   | ok o =>
     cases o with
@@ -451,17 +451,22 @@ theorem blacklist_restrict_visit (t : BlTables) (keep : Str → Bool) (hs : SelH
     (nm : NosecMap) (env : Env) (kind : Str) (ctx : Ctx) (hd : dispatch env.v = some (kind, ctx)) :
     ((checksFor (blacklistCheck (t.restrict keep)).toList kind).flatMap (runCheck nm env)).filter hasId
       = ((checksFor (blacklistCheck t).toList kind).flatMap (runCheck nm env)).filter (keepEvent keep) := by
+  -- the blacklist decides on the position-erased visit
+  let envE : Env := { env with v := env.v.erase }
+  have hkE : envE.node.kind = env.v.node.kind := by simp [envE, Env.node, Visit.erase]
   -- facts about rules the full check can report at this node
-  have hraw : ∀ raw, blacklistRun t env = .ok (some raw) → ∃ r ∈ t.rulesFor kind, raw.id = r.id := by
+  have hraw : ∀ raw, blacklistRun t envE = .ok (some raw) → ∃ r ∈ t.rulesFor kind, raw.id = r.id := by
     intro raw hr
     obtain ⟨r, hrm, hid⟩ := blacklistRun_id_mem hr
+    rw [hkE] at hrm
     rcases dispatch_kind hd with hk | ⟨hk1, hk2⟩ | hk
     · exact ⟨r, hk ▸ hrm, hid⟩
     · refine ⟨r, ?_, hid⟩
-      have : env.node.kind = "ImportFrom".toList := hk2
-      rw [this] at hrm
+      rw [hk2] at hrm
       rw [hk1, hs.importTables]; exact hrm
-    · rw [blacklistRun_constant (e := env) hk] at hr; cases hr
+    · have hkc : envE.node.isKind "Constant" = true := by
+        simp only [envE, Env.node, Visit.erase, Node.erase_isKind]; exact hk
+      rw [blacklistRun_constant (e := envE) hkc] at hr; cases hr
   cases hbt : blacklistCheck t with
   | none =>
     have hte : t.isEmpty = true := by
@@ -471,6 +476,7 @@ theorem blacklist_restrict_visit (t : BlTables) (keep : Str → Bool) (hs : SelH
     simp [BlTables.restrict, blacklistCheck, checksFor]
   | some bc =>
     obtain ⟨hrun, hkinds, hname⟩ := blacklistCheck_run hbt
+    have hfc : env.forCheck bc = envE := forCheck_erased (blacklistCheck_usesPos hbt)
     have hbcid : bc.id = "B001".toList := by
       unfold blacklistCheck at hbt; split at hbt <;> simp_all
       rw [← hbt]
@@ -495,12 +501,13 @@ theorem blacklist_restrict_visit (t : BlTables) (keep : Str → Bool) (hs : SelH
         have hck : checksFor [bc'] kind = [bc'] := by simp [checksFor, hkinds', hkr]
         rw [hb', show (some bc').toList = [bc'] from rfl, hck]
         simp only [List.flatMap_cons, List.flatMap_nil, List.append_nil]
+        have hfc' : env.forCheck bc' = envE := forCheck_erased (blacklistCheck_usesPos hb')
         apply runCheck_related keep
         · rw [hname, hname']
         · rw [hbcid, hid']
-        · rw [hrun, hrun']; exact blacklistRun_restrict t keep env hs.keys (hs.noMask env)
+        · rw [hrun, hrun', hfc, hfc']; exact blacklistRun_restrict t keep envE hs.keys (hs.noMask envE)
         · intro raw hr
-          rw [hrun] at hr
+          rw [hrun, hfc] at hr
           obtain ⟨r, hrm, hid⟩ := hraw raw hr
           rw [hid]; exact hs.ids kind r hrm
       · -- restricted check absent or not registered for this kind: nothing kept is reported
@@ -516,7 +523,7 @@ theorem blacklist_restrict_visit (t : BlTables) (keep : Str → Bool) (hs : SelH
         symm
         apply runCheck_unkept keep
         intro raw hr
-        rw [hrun] at hr
+        rw [hrun, hfc] at hr
         obtain ⟨r, hrm, hid⟩ := hraw raw hr
         have hnil : (t.rulesFor kind).filter (fun r => keep r.id) = [] := by
           cases hf : (t.rulesFor kind).filter (fun r => keep r.id) with
